@@ -219,6 +219,36 @@ impl Scenario for S9 {
                         stats.probe("via_extend");
                     }
                     stats.steps += case.keys.len() as u64;
+                    // two sketches that agree in w, d and hasher but come from different constructors
+                    {
+                        let eps = (case.p_milli as f64 / 1000.0).max(0.01);
+                        let delta = 1.0 / (1.0 + case.b as f64);
+                        let mut pq = CountMinSketch::<u64>::with_point_query_properties(eps, delta);
+                        let mut ex = CountMinSketch::<u64>::with_params(pq.w(), pq.d());
+                        let mut pq2 = CountMinSketch::<u64>::with_point_query_properties(eps, delta);
+                        let mut ex2 = CountMinSketch::<u64>::with_params(pq.w(), pq.d());
+                        let half = case.keys.len() / 2;
+                        for &key in &case.keys[..half] {
+                            pq.add(&key);
+                            ex2.add(&key);
+                        }
+                        for &key in &case.keys[half..] {
+                            ex.add(&key);
+                            pq2.add(&key);
+                        }
+                        pq.merge(&ex);
+                        ex2.merge(&pq2);
+                        stats.probe("cross_constructor_merge");
+                        for (&k, &t) in truth.iter() {
+                            for (name, s) in [("with_point_query_properties <- with_params", &pq), ("with_params <- with_point_query_properties", &ex2)] {
+                                let q = s.query_point(&k);
+                                if q < t || q > case.keys.len() {
+                                    viol.push(v("C02", if q < t { "cms/underestimate" } else { "cms/exceeds-total" }, 0, format!("merge {} ({}x{}): query_point({}) = {}, true weight {}", name, pq.w(), pq.d(), k, q, t)));
+                                    return;
+                                }
+                            }
+                        }
+                    }
                     let total = case.keys.len();
                     for &q in &all {
                         let (a, b) = (x.query_point(&q), y.query_point(&q));
